@@ -166,7 +166,9 @@ def main():
         summ = r['summary'] or {}
         n_ver = summ.get('verified', 0)
         n_real_err = len({(d['owner'], d['clause']) for d in real})
-        obligations += n_ver + len({d['owner'] for d in real})
+        known_here = [d for d in real if match_known(known, pid, d)]
+        # obligations that fail because of a recorded finding are listed separately (known_findings_hit), not counted
+        obligations += n_ver + len({d['owner'] for d in real if d not in known_here})
         discharged += n_ver
         if n_ver == 0:
             undecided(f'unit {un}: zero obligations (vacuity guard i)')
